@@ -167,6 +167,58 @@ pub fn run(tier: &str) -> i32 {
             });
         }
     }
+    // the same patterns with weights one ulp apart (and zero beside the smallest subnormal): equality of
+    // weights is exact equality
+    let near: [(u32, u32); 3] = [(0.5f32.to_bits(), 0.5f32.to_bits() + 1), (1.0f32.to_bits(), 1.0f32.to_bits() - 1), (0, 1)];
+    let mut near_jobs: Vec<(RP, usize)> = vec![];
+    for rp in RP::all() {
+        for w in 0..near.len() {
+            near_jobs.push((rp, w));
+        }
+    }
+    let outs = par_map(near_jobs.len(), |j| {
+        let (rp, w) = near_jobs[j];
+        let (wa, wb) = near[w];
+        let combos = rp.combos();
+        let k = combos.len() as u32;
+        // pockets and suited: all 3-state patterns; offsuit: all {a, b} patterns without gaps
+        let (states, total): (u64, u64) = if k <= 6 { (3, 3u64.pow(k)) } else { (2, 2u64.pow(k)) };
+        let mut bad = vec![];
+        let mut n = 0u64;
+        let mut c = Contents::new();
+        for code in 0..total {
+            n += 1;
+            if states == 3 {
+                pattern(&combos, code, 3, wa, wb, &mut c);
+            } else {
+                let mut x = code;
+                for cb in &combos {
+                    c.insert(*cb, if x & 1 == 0 { wa } else { wb });
+                    x >>= 1;
+                }
+            }
+            if let Some(b) = check_split(&c) {
+                if bad.len() < 2 {
+                    bad.push((c.clone(), b));
+                }
+            }
+        }
+        (bad, n)
+    });
+    let mut n_near = 0u64;
+    for (bad, k) in outs {
+        n_near += k;
+        for (c, b) in bad {
+            rep.violation(Violation {
+                key: format!("range={}", contents_text(&c)),
+                sub: "near-equal-weights".into(),
+                case: json!({"contents": c.iter().map(|(k, w)| json!([k.0, k.1, w])).collect::<Vec<_>>()}),
+                expected: json!("weights one ulp apart are different weights"),
+                observed: b,
+            });
+        }
+    }
+    rep.sub("near-equal-weights", "for every rank pair, every pattern over its combos with two weights one ulp apart ((0.5, next above), (1, next below), (0, smallest subnormal)): 3-state patterns for pockets and suited, all 2^12 two-weight fillings for offsuit", n_near, n_near, true, json!({}));
     let total: u64 = n.iter().sum();
     rep.sub(
         "patterns",
